@@ -49,6 +49,11 @@ type Agent struct {
 	finished  atomic.Bool
 
 	lock sync.RWMutex
+
+	// statusLock serializes status records; finalRecorded is set once the
+	// final status of the run has been written.
+	statusLock    sync.Mutex
+	finalRecorded bool
 }
 
 // Options is the configuration for the Agent.
@@ -127,7 +132,7 @@ func (a *Agent) Run(ctx context.Context) error {
 		}
 	}()
 
-	if err := a.historyStore.Write(a.Status()); err != nil {
+	if err := a.recordStatus(false); err != nil {
 		a.logger.Error("Failed to write status", "error", err)
 	}
 
@@ -163,10 +168,10 @@ func (a *Agent) Run(ctx context.Context) error {
 	defer close(done)
 	go func() {
 		for node := range done {
-			status := a.Status()
-			if err := a.historyStore.Write(status); err != nil {
+			if err := a.recordStatus(false); err != nil {
 				a.logger.Error("Failed to write status", "error", err)
 			}
+			status := a.Status()
 			if err := a.reporter.reportStep(a.dag, status, node); err != nil {
 				a.logger.Error("Failed to report step", "error", err)
 			}
@@ -180,7 +185,7 @@ func (a *Agent) Run(ctx context.Context) error {
 		if a.finished.Load() {
 			return
 		}
-		if err := a.historyStore.Write(a.Status()); err != nil {
+		if err := a.recordStatus(false); err != nil {
 			a.logger.Error("Status write failed", "error", err)
 		}
 	}()
@@ -192,7 +197,7 @@ func (a *Agent) Run(ctx context.Context) error {
 	// Update the finished status to the history database.
 	finishedStatus := a.Status()
 	a.logger.Info("Workflow execution finished", "status", finishedStatus.Status)
-	if err := a.historyStore.Write(a.Status()); err != nil {
+	if err := a.recordStatus(true); err != nil {
 		a.logger.Error("Status write failed", "error", err)
 	}
 
@@ -207,6 +212,23 @@ func (a *Agent) Run(ctx context.Context) error {
 
 	// Return the last error on the DAG execution.
 	return lastErr
+}
+
+// recordStatus writes the current status to the history store. The status is
+// taken and written under one lock, so records appear in the order of the
+// states they describe, and nothing is recorded after the final status: a
+// record taken while the run was still in progress must never become the last
+// line of the history file.
+func (a *Agent) recordStatus(final bool) error {
+	a.statusLock.Lock()
+	defer a.statusLock.Unlock()
+	if a.finalRecorded {
+		return nil
+	}
+	if final {
+		a.finalRecorded = true
+	}
+	return a.historyStore.Write(a.Status())
 }
 
 // Status collects the current running status of the DAG and returns it.
